@@ -63,7 +63,6 @@ pub fn spec(id: &str) -> Option<Spec> {
             level: "exploration",
             rule: "A case is a history of document kinds for one target (7 targets x 13-17 kinds: valid shapes, empty, explicit null, root block scalars incl. empty ones, quoted empty strings, defining anchors, defining an anchor and then failing, aliasing an anchor of an earlier document, type error early / late, surplus / missing element, duplicate key, three syntax errors, 60 aliases of one anchor - under every per-document limit, two such documents are over the alias/anchor ratio), with seeded end markers / trailing comments / start marker / implicit starts after `...`, a quarter of them under alias limits that one document stays below but two together exceed, and 5 chunk schedules. For the validated struct target the garde / validator batch (str and slice) and iterator entry points are compared with the plain ones with validation applied per document (incl. runs of null documents and a document failing validation). ALL histories up to length 3 (thorough: 4) are enumerated per target, then random histories of length 2..8. Model: every document is classified on its own (raw parser: syntax error / empty-or-null; from_str alone: value or type-level error); batch, slice-batch, read, read_with_options under each schedule and the four single-document entry points are compared with the list of per-document results and the resynchronisation rules. One evaluation = one library call on the stream. Non-trivial = iterator executions on streams of at least two documents; distinct = distinct (stream text, request trace) digests.".into(),
             assumptions: vec![
-                "whether the iterator continues after a document that aliases an anchor of an earlier document is not prescribed (must fail, may continue or end)".into(),
                 "single-document entry points are only asserted on streams with at least two content documents".into(),
             ],
             components: components(),
@@ -76,7 +75,6 @@ pub fn spec(id: &str) -> Option<Spec> {
             rule: "A case is a stream of documents (10 kinds: plain, anchors+aliases, merge keys incl. anchored maps that themselves contain merge keys, containers as mapping keys and `<<` as a plain value, deep nesting, long scalars, two kinds whose type-level failure leaves containers open when recovery starts, sequences, nested anchors, generated) with one document under test. ALL histories up to length 3 (thorough: 4) with the last document under test, then random streams. For the document under test an independent event-count model (own pass over raw parser events, alias expansion included) gives the usage of every counter; each limit is set to the usage (must pass) and to usage-1 (must fail with the matching breach) through from_str, from_multiple, from_reader (seeded chunking), check_yaml_budget (raw counts, both policies); the report handed to the callback must equal the model; the ratio heuristic is probed at its two thresholds; the stream total is compared for from_multiple; and under per-document enforcement (read_with_options) the item of the document under test must be the same alone and after every history, for every counter at both limits. One evaluation = one library call. Non-trivial = iterator executions of a multi-document stream under a limit derived from the document under test; distinct = distinct (request trace, limit) digests.".into(),
             assumptions: vec![
                 "target is an untyped tree accepting non-string and container mapping keys (sim/src/types.rs Tree) so that every event is consumed".into(),
-                "a tagged or quoted `<<` reached through an alias is excluded from exactness (replay drops the tag before counting)".into(),
                 "per-document `events` has no crisp definition (stream markers): differential only; what a per-document report holds at end of stream is not asserted".into(),
             ],
             components: components(),
